@@ -45,6 +45,14 @@ type caseIn struct {
 	Root    string            `json:"root"`
 	RootArg string            `json:"rootarg"`
 	Mains   []string          `json:"mains"`
+	// several import roots in ONE process: Roots lists them (relative to the case dir), MainRoot[i] is the index of the
+	// root the i-th main program is evaluated with, MainRootArg[i] (optional) the spelling handed to the importer.
+	// With ShareLocal the "local" route reuses one LocalImporter per root for all evaluations of the case (documented as
+	// safe: "It is safe to reuse the same local importer across multiple VMs and evaluations").
+	Roots       []string `json:"roots"`
+	MainRoot    []int    `json:"mainroot"`
+	MainRootArg []string `json:"mainrootarg"`
+	ShareLocal  bool     `json:"sharelocal"`
 }
 
 type routeOut struct {
@@ -473,9 +481,20 @@ func main() {
 		if c.RootArg != "" {
 			rootArg = dir + "/" + c.RootArg // deliberately not cleaned
 		}
-		for _, mh := range c.Mains {
+		for _, r := range c.Roots {
+			_ = os.MkdirAll(filepath.Join(dir, r), 0o755)
+		}
+		shared := map[string]importer.Importer{}
+		for mi, mh := range c.Mains {
 			b, _ := hex.DecodeString(mh)
 			src := strings.ReplaceAll(string(b), "@CASEDIR@", dir)
+			if mi < len(c.MainRoot) && c.MainRoot[mi] >= 0 && c.MainRoot[mi] < len(c.Roots) {
+				root = filepath.Join(dir, c.Roots[c.MainRoot[mi]])
+				rootArg = root
+				if mi < len(c.MainRootArg) && c.MainRootArg[mi] != "" {
+					rootArg = dir + "/" + c.MainRootArg[mi] // deliberately not cleaned
+				}
+			}
 			var out caseOut
 			out.Marker = marker
 			{
@@ -485,8 +504,17 @@ func main() {
 			{
 				rec := newRecorder()
 				g := risor.WithGlobals(rec.builtins())
-				inner := importer.NewLocalImporter(importer.LocalImporterOptions{
-					GlobalNames: globalNames(g), SourceDir: rootArg, Extensions: []string{".risor", ".rsr"}})
+				var inner importer.Importer
+				if c.ShareLocal {
+					inner = shared[rootArg]
+				}
+				if inner == nil {
+					inner = importer.NewLocalImporter(importer.LocalImporterOptions{
+						GlobalNames: globalNames(g), SourceDir: rootArg, Extensions: []string{".risor", ".rsr"}})
+					if c.ShareLocal {
+						shared[rootArg] = inner
+					}
+				}
 				out.Local = evalRoute(src, rec, g, risor.WithImporter(&recImporter{inner: inner, rec: rec, base: dir}))
 			}
 			{
